@@ -51,6 +51,8 @@ pub struct World {
     pub slice_len: BTreeMap<String, String>,
     /// structs translated with `only=`: the other fields are invisible to the translated functions
     pub partial_structs: std::collections::BTreeSet<String>,
+    /// structs of `slice_len` whose `DerefMut` was checked too
+    pub slice_len_mut: std::collections::BTreeSet<String>,
 }
 
 #[derive(Clone, Debug)]
@@ -76,6 +78,8 @@ pub struct FnSig {
     pub rec_self: bool,
     /// an `extern` target: not translated, a parameter `ext_<Type>_<name>` of every function that calls it (its Lean type)
     pub ext_ty: Option<String>,
+    /// the external parameters this translated function takes in front of its own (name, Lean type)
+    pub externs: Vec<(String, String)>,
 }
 
 /// the type a target line instantiates a type parameter with: `B=Block`, or `W=@extw` for an abstract writer
@@ -120,6 +124,7 @@ impl World {
             Ty::Opt(e) => format!("Option ({})", self.lean_ty(e)?),
             Ty::Res(e) => self.lean_ty(e)?,
             Ty::Unit => "Unit".into(),
+            Ty::Named(n) if n == "GhostLen" || n == "GhostArr" => "Nat".into(),
             Ty::Named(n) if self.ext_structs.contains(n) => format!("({} γ)", n),
             Ty::Named(n) => n.clone(),
             Ty::Cursor | Ty::ExtW => "γ".into(),
@@ -327,7 +332,23 @@ impl World {
                         let suffix = format!(".as_ptr(),self.{})}}}}", field);
                         if body.starts_with("{unsafe{slice::from_raw_parts(self.") && body.ends_with(&suffix) {
                             self.slice_len.insert(name.to_string(), field.to_string());
-                            return Ok(format!("-- checked on the source: `{}` derefs to a byte slice of length `self.{}`\n", name, field));
+                            // `DerefMut`, when there is one, must expose the same `self.<field>` bytes (writes through it are length-checked only)
+                            let mut mut_ok = false;
+                            for it2 in &f.items {
+                                if let Item::Impl(im2) = it2 {
+                                    let sn2 = match &*im2.self_ty { Type::Path(p) => p.path.segments.last().map(|s| s.ident.to_string()).unwrap_or_default(), _ => String::new() };
+                                    let tr2 = im2.trait_.as_ref().map(|(_, p, _)| p.to_token_stream().to_string().replace(' ', "")).unwrap_or_default();
+                                    if sn2 != name || !(tr2 == "DerefMut" || tr2.ends_with("::DerefMut")) { continue; }
+                                    for ii2 in &im2.items {
+                                        if let ImplItem::Fn(m2) = ii2 {
+                                            let b2 = m2.block.to_token_stream().to_string().replace(' ', "");
+                                            if m2.sig.ident == "deref_mut" && b2.starts_with("{unsafe{slice::from_raw_parts_mut(self.") && b2.ends_with(&suffix) { mut_ok = true; }
+                                        }
+                                    }
+                                }
+                            }
+                            if mut_ok { self.slice_len_mut.insert(name.to_string()); }
+                            return Ok(format!("-- checked on the source: `{}` derefs to a byte slice of length `self.{}`{}\n", name, field, if mut_ok { " (Deref and DerefMut)" } else { "" }));
                         }
                         return Err(format!("Deref for {} is not `slice::from_raw_parts(self.<ptr>.as_ptr(), self.{})`", name, field));
                     }
